@@ -118,6 +118,20 @@ pub fn build_workload_biased(
     bias_fold_count: bool,
     bias_tags: bool,
 ) -> Result<Workload, BuildError> {
+    build_workload_full(tapes, bias_fold_count, bias_tags, false)
+}
+
+/// `adversarial_args` (C09 only): some argument values are replaced by values the harness's own
+/// typing of the variable says are NOT admissible (null for a non-null variable, a list with a
+/// null element, a value of another base type). Whether such a map is accepted is the engine's
+/// call (argument validation, C12 is not claimed here): if it refuses, the case is discarded;
+/// if it accepts, C09 says execution must still not panic.
+pub fn build_workload_full(
+    tapes: &mut Tapes,
+    bias_fold_count: bool,
+    bias_tags: bool,
+    adversarial_args: bool,
+) -> Result<Workload, BuildError> {
     let (world, schema_text) = build_world(tapes);
     let schema = match catch_unwind(AssertUnwindSafe(|| Schema::parse(&schema_text))) {
         Ok(Ok(s)) => s,
@@ -147,8 +161,36 @@ pub fn build_workload_biased(
             cfg.max_depth = cfg.max_depth.max(2);
         }
     }
+    if adversarial_args || tapes.query.draw(4) == 0 {
+        cfg.bias_var_reuse = true;
+    }
     let q = gen_query(&world, &mut tapes.query, cfg);
-    let args = gen_args(&q, &world, &mut tapes.args);
+    let mut args = gen_args(&q, &world, &mut tapes.args);
+    if adversarial_args {
+        let t = &mut tapes.args;
+        for (name, v) in args.iter_mut() {
+            // variables used by a fold-count filter are always perturbed (their values reach
+            // the fold-size limit computations), the others half of the time
+            let is_count = q.vars.iter().any(|x| &x.name == name && x.count);
+            if t.draw(2) == 0 && !is_count {
+                continue;
+            }
+            *v = match (t.draw(4), &*v) {
+                (0, _) => FieldValue::Null,
+                (1, FieldValue::List(l)) => {
+                    let mut items: Vec<FieldValue> = l.iter().cloned().collect();
+                    let at = t.draw(items.len() as u32 + 1) as usize;
+                    items.insert(at, FieldValue::Null);
+                    FieldValue::List(items.into())
+                }
+                (1, _) => FieldValue::Null,
+                (2, FieldValue::String(_)) => FieldValue::Int64(1),
+                (2, FieldValue::List(_)) => FieldValue::Int64(0),
+                (2, _) => FieldValue::String("a".into()),
+                (_, other) => FieldValue::List(vec![other.clone()].into()),
+            };
+        }
+    }
     finish_workload(world, schema_text, schema, q, args)
 }
 
